@@ -6,6 +6,7 @@
 #include "nmtools/utility/shape.hpp"
 #include "nmtools/utility/at.hpp"
 #include "nmtools/array/index/compute_indices.hpp"
+#include "nmtools/array/index/product.hpp"
 #include "nmtools/array/ndarray/hybrid.hpp"
 
 namespace nmtools::index
@@ -30,11 +31,12 @@ namespace nmtools::index
                 at(res,0_ct) = n;
             else {
                 using element_t = meta::get_index_element_type_t<return_t>;
-                auto shape_take_impl = [&](auto i){
-                    using common_t = meta::promote_index_t<axis_t,decltype(i)>;
-                    at(res,i) = ((common_t)i == (common_t)axis) ? (element_t)n : (element_t)at(shape,i);
-                };
                 [[maybe_unused]] auto dim = len(shape);
+                // negative axis counts from the last axis
+                auto m_axis = ((long long)axis < 0) ? ((long long)axis + (long long)dim) : (long long)axis;
+                auto shape_take_impl = [&](auto i){
+                    at(res,i) = ((long long)i == m_axis) ? (element_t)n : (element_t)at(shape,i);
+                };
                 if constexpr (meta::is_resizable_v<return_t>)
                     res.resize(dim);
 
@@ -79,14 +81,22 @@ namespace nmtools::index
             // TODO: provide overload that already compute strides
             auto strides = compute_strides(shape);
             auto dst_i   = at(index,0);
-            auto offset  = at(indices,dst_i);
+            // negative index counts from the end of the flattened array
+            auto m_offset = (long long)at(indices,dst_i);
+            auto offset   = (nm_size_t)((m_offset < 0) ? (m_offset + (long long)product(shape)) : m_offset);
             impl::compute_indices(res, offset, shape, strides);
         }
         else {
+            // negative axis counts from the last axis, negative index from the end of that axis
+            auto m_axis = ((long long)axis < 0) ? ((long long)axis + (long long)dim) : (long long)axis;
             auto take_impl = [&](auto i){
                 auto dst_i = at(index,i);
-                using common_t = meta::promote_index_t<axis_t,decltype(i)>;
-                at(res, i) = ((common_t)i == (common_t)axis) ? at(indices,dst_i) : dst_i;
+                if ((long long)i == m_axis) {
+                    auto src_i = (long long)at(indices,dst_i);
+                    at(res, i) = (src_i < 0) ? (src_i + (long long)at(shape,i)) : src_i;
+                } else {
+                    at(res, i) = dst_i;
+                }
             };
             if constexpr (meta::is_fixed_index_array_v<index_t>) {
                 constexpr auto DIM = meta::len_v<index_t>;
